@@ -97,7 +97,14 @@ impl<const D: usize> ToroidalSpace<D> {
             return None;
         }
         let wrapped = v_f64.rem_euclid(period);
-        <T as NumCast>::from(wrapped)
+        let wrapped_t = <T as NumCast>::from(wrapped)?;
+        // Rounding (inside `rem_euclid` for tiny negative inputs, or in the conversion to a
+        // narrower scalar) can land exactly on `period`; the canonical representative of
+        // that residue class in the half-open box `[0, period)` is 0.
+        if wrapped_t.to_f64()? >= period {
+            return Some(T::zero());
+        }
+        Some(wrapped_t)
     }
 }
 
@@ -115,7 +122,9 @@ impl<const D: usize> TopologicalSpace for ToroidalSpace<D> {
     fn canonicalize_point(&self, coords: &mut [f64]) {
         for (coord, &period) in coords.iter_mut().zip(self.domain.iter()) {
             if period.is_finite() && period > 0.0 {
-                *coord = coord.rem_euclid(period);
+                let wrapped = coord.rem_euclid(period);
+                // `rem_euclid` can round up to `period` itself; keep the box half-open.
+                *coord = if wrapped >= period { 0.0 } else { wrapped };
             }
         }
     }
